@@ -631,8 +631,9 @@ def _run_iod(res, item):
     start = _seed_start(seed, oi + 3 * si)
     w = _World(start, orbit, site, seed + 11 * oi)
     step = 60 if w.period < 30000 else 300  # scenario step: observation times are whole steps
-    t_det = 10 * step
-    t1 = 14 * step
+    # the pass starts 0.7 P into the scenario, so that scenario times and time differences cannot be confused
+    t1 = (14 + round(0.7 * w.period / step)) * step
+    t_det = t1 - 4 * step
     solvers = ("universal", "battin")
     for sep in seps:
         t2 = t1 + max(step, round(sep / 100.0 * w.period / step) * step)
@@ -785,10 +786,13 @@ def _run_iod_api(res, item):
         ("optical_only", [opt], None),
         ("empty", [], None),
     ):
-        got = iod._determineFinalState(lst)  # noqa: SLF001
-        ok = (got is None) if exp is None else (got is not None and np.array_equal(np.asarray(got), np.asarray(exp)))
-        if exp is not None and name == "radar_only":
-            ok = ok and _maxabs(got, w.truth(t)[:3]) <= TOL_IOD_POS_KM
+        try:
+            got = iod._determineFinalState(lst)  # noqa: SLF001
+            ok = (got is None) if exp is None else (got is not None and np.array_equal(np.asarray(got), np.asarray(exp)))
+            if exp is not None and name == "radar_only":
+                ok = ok and _maxabs(got, w.truth(t)[:3]) <= TOL_IOD_POS_KM
+        except Exception as exc:  # noqa: BLE001
+            got, ok = f"{type(exc).__name__}: {exc}", False
         res.case("iod_api/final_state", {**base, "list": name}, ok, nontrivial=True, signature=f"C20/iod_api/final_state/{name}",
                  observed=got, expected=exp, item=item)
     # --- min_observations: stored + 1 (the current one) must reach it
@@ -926,24 +930,24 @@ def _run_mmae(res, item):
 
 # ------------------------------------------------------------------------------------------------ dispatch
 def run_item(item):
+    import traceback  # noqa: PLC0415
+
     res = fw.Result()
     kind = item[0]
-    if kind == "arcs":
-        _run_arcs(res, item)
-    elif kind == "helpers":
-        _run_helpers(res, item)
-    elif kind == "direction":
-        _run_direction(res, item)
-    elif kind == "radar":
-        _run_radar(res, item)
-    elif kind == "radar_space":
-        _run_radar_space(res, item)
-    elif kind == "iod":
-        _run_iod(res, item)
-    elif kind == "iod_api":
-        _run_iod_api(res, item)
-    elif kind == "mmae":
-        _run_mmae(res, item)
-    else:
-        raise ValueError(kind)
+    runner = {
+        "arcs": _run_arcs, "helpers": _run_helpers, "direction": _run_direction, "radar": _run_radar,
+        "radar_space": _run_radar_space, "iod": _run_iod, "iod_api": _run_iod_api, "mmae": _run_mmae,
+    }[kind]
+    try:
+        runner(res, item)
+    except Exception as exc:  # noqa: BLE001
+        frames = traceback.extract_tb(exc.__traceback__)
+        if not any("/resonaate/" in f.filename for f in frames):
+            raise  # a fault of the harness itself: exit 2
+        # raised inside the code under test on an input of the lattice where no exception is part of the contract
+        where = next(f for f in reversed(frames) if "/resonaate/" in f.filename)
+        res.case(f"{kind}/exception", {"item": list(item)}, False, nontrivial=False,
+                 signature=f"C20/{kind}/exception/{type(exc).__name__}",
+                 observed=f"{type(exc).__name__}: {exc} at {where.filename.split('/resonaate/')[-1]}:{where.name}",
+                 expected="no exception", item=item)
     return res
